@@ -127,6 +127,15 @@ PROGRAMS = {
         ["declare", "l", "raman_local", ["q0", "q2"]],
         ["add", "l", ["cp", 20, S("a0", lo=0, hi=5), S("d0", "fix", lo=-20, hi=20), "PH:p0"]],
         ["target", "l", ["q1"]], ["add", "l", ["cp", 12, S("a1", lo=0, hi=5), 0.0, 1.0]]]),
+    # a 3D register defined from a 3D layout with its traps in non-ascending order (qubits are addressed by index in the document)
+    "layout_reg3d": dict(device="mock", reg="layout3d", prog=[
+        ["declare", "l", "raman_local", ["q0", "q2"]], ["declare", "g", "rydberg_global"],
+        ["add", "l", ["cp", 20, S("a0", lo=0, hi=5), S("d0", "fix", lo=-20, hi=20), "PH:p0"]],
+        ["target", "l", ["q1"]], ["add", "l", ["cp", 12, S("a1", lo=0, hi=5), 0.0, 1.0]],
+        ["phase_shift", 0.75, ["q0"], "digital"], ["add", "g", ["cp", 16, 1.0, 0.0, 0.0]]]),
+    # an EOM whose controlled beams are listed RED first
+    "eom_beams_rb": dict(device="virt_beams_rb", prog=[
+        ["declare", "g", "ryd_glob"], ["enable_eom", "g", 2.0, 0.0], ["add_eom", "g", 40, 0.25], ["disable_eom", "g"]]),
     # integer qubit ids (the first one is 0): initial target 0, retarget, index-free phase shift
     "int_ids": dict(device="mock", reg="regint", prog=[
         ["declare", "l", "raman_local", 0], ["declare", "g", "rydberg_global"],
